@@ -85,8 +85,14 @@ func establish(w *world, d dlg, status int) int {
 	if n != 1 {
 		return -1
 	}
+	// the establishing response may carry an Expires of any value (0 included): the pin lives at least
+	// for the dialog timeout whatever it says
+	exp := ""
+	if rt.Bool("establishing-expires") {
+		exp = "Expires: " + itoa(rt.Int("establishing-expires-value", 0, 100000)) + "\r\n"
+	}
 	resp := "SIP/2.0 " + itoa(status) + " OK\r\n" + viaEcho(w.bs[b].sent[len(w.bs[b].sent)-1]) +
-		"From: <" + d.furi + ">;tag=" + d.ftag + "\r\nTo: <" + d.turi + ">;tag=" + d.ttag + "\r\nCall-ID: " + d.callID + "\r\nCSeq: 1 INVITE\r\nContent-Length: 0\r\n\r\n"
+		"From: <" + d.furi + ">;tag=" + d.ftag + "\r\nTo: <" + d.turi + ">;tag=" + d.ttag + "\r\nCall-ID: " + d.callID + "\r\nCSeq: 1 INVITE\r\n" + exp + "Content-Length: 0\r\n\r\n"
 	if !w.deliver(resp, "10.0.1."+itoa(b+1), 5060, true) {
 		return -1
 	}
